@@ -32,6 +32,9 @@ type Origin struct {
 	Kind  int
 	Param int
 	Desc  string
+	// Elem: the object was reached through an element or field load from the parameter (an argument object),
+	// not the parameter value itself (e.g. the argument slice of a Call, which is private to the call)
+	Elem bool
 }
 
 func (o Origin) String() string {
@@ -39,6 +42,9 @@ func (o Origin) String() string {
 	case Fresh:
 		return "fresh"
 	case Param:
+		if o.Elem {
+			return fmt.Sprintf("param#%d.elem", o.Param)
+		}
 		return fmt.Sprintf("param#%d", o.Param)
 	}
 	return "shared:" + o.Desc
@@ -66,9 +72,39 @@ func (s OSet) OnlyFresh() bool {
 
 // Params returns the parameter indexes among the origins.
 func (s OSet) Params() []int {
+	seen := map[int]bool{}
 	var out []int
 	for o := range s {
-		if o.Kind == Param {
+		if o.Kind == Param && !seen[o.Param] {
+			seen[o.Param] = true
+			out = append(out, o.Param)
+		}
+	}
+	sort.Ints(out)
+	return out
+}
+
+// ElemParams returns the parameters from which an argument object (element/field) is reached.
+func (s OSet) ElemParams() []int {
+	seen := map[int]bool{}
+	var out []int
+	for o := range s {
+		if o.Kind == Param && o.Elem && !seen[o.Param] {
+			seen[o.Param] = true
+			out = append(out, o.Param)
+		}
+	}
+	sort.Ints(out)
+	return out
+}
+
+// DirectParams returns the parameters whose own value (not an element of it) is an origin.
+func (s OSet) DirectParams() []int {
+	seen := map[int]bool{}
+	var out []int
+	for o := range s {
+		if o.Kind == Param && !o.Elem && !seen[o.Param] {
+			seen[o.Param] = true
 			out = append(out, o.Param)
 		}
 	}
@@ -284,6 +320,7 @@ func (a *Analyzer) origins(v ssa.Value) OSet {
 			for o := range base {
 				switch o.Kind {
 				case Param:
+					o.Elem = true
 					out.add(o) // element of an argument list: the user's object
 				case Fresh:
 					// element of a slice built here: the values stored into it
@@ -297,6 +334,7 @@ func (a *Analyzer) origins(v ssa.Value) OSet {
 			for o := range base {
 				switch o.Kind {
 				case Param:
+					o.Elem = true
 					out.add(o)
 				case Fresh:
 					a.fieldStores(ad, out)
@@ -518,7 +556,12 @@ func (a *Analyzer) callResult(c *ssa.Call, idx int) OSet {
 			switch o.Kind {
 			case Param:
 				if o.Param < len(c.Call.Args) {
-					out.addAll(a.Origins(c.Call.Args[o.Param]))
+					for ao := range a.Origins(c.Call.Args[o.Param]) {
+						if o.Elem && ao.Kind == Param {
+							ao.Elem = true
+						}
+						out.add(ao)
+					}
 				}
 			default:
 				out.add(o)
